@@ -270,7 +270,9 @@ def prepare_imports():
     if VERIF not in sys.path:
         sys.path.insert(1, VERIF)
     import logging
+    import warnings
     logging.disable(logging.CRITICAL)
+    warnings.filterwarnings('ignore')
     import playback
     where = os.path.abspath(playback.__file__)
     if not where.startswith(SRC + os.sep):
@@ -426,3 +428,4 @@ def main(argv=None):
 
 if __name__ == '__main__':
     sys.exit(main())
+
